@@ -584,6 +584,8 @@ cpc_sketch_alloc<A> cpc_sketch_alloc<A>::deserialize(std::istream& is, uint64_t 
   }
   uncompressed_state<A> uncompressed(allocator);
   get_compressor<A>().uncompress(compressed, uncompressed, lg_k, num_coupons);
+  // the image of an empty sketch carries no HIP registers: start from the state of a new sketch
+  if (num_coupons == 0) kxp = static_cast<double>(1 << lg_k);
   if (!is.good())
     throw std::runtime_error("error reading from std::istream"); 
   return cpc_sketch_alloc(lg_k, num_coupons, first_interesting_column, std::move(uncompressed.table),
@@ -679,6 +681,8 @@ cpc_sketch_alloc<A> cpc_sketch_alloc<A>::deserialize(const void* bytes, size_t s
   }
   uncompressed_state<A> uncompressed(allocator);
   get_compressor<A>().uncompress(compressed, uncompressed, lg_k, num_coupons);
+  // the image of an empty sketch carries no HIP registers: start from the state of a new sketch
+  if (num_coupons == 0) kxp = static_cast<double>(1 << lg_k);
   return cpc_sketch_alloc(lg_k, num_coupons, first_interesting_column, std::move(uncompressed.table),
       std::move(uncompressed.window), has_hip, kxp, hip_est_accum, seed);
 }
